@@ -27,10 +27,12 @@ type TrafficCfg struct {
 	Msgs            int // messages per direction per channel (upper bound)
 	MaxProcs        int
 	SizeCap         int
+	Asym            int  // 1: only the client enables compression, 2: only the server does (0: both sides as Compress says)
+	Fragment        bool // through a proxy that forwards the byte stream in pieces of 1..1500 bytes
 }
 
 func (c TrafficCfg) String() string {
-	return fmt.Sprintf("conns=%d chans=%d window=%d queue=%d rbuf=%d wbuf=%d lz4=%v msgs=%d procs=%d", c.Conns, c.Channels, c.Window, c.Queue, c.RBuf, c.WBuf, c.Compress, c.Msgs, c.MaxProcs)
+	return fmt.Sprintf("conns=%d chans=%d window=%d queue=%d rbuf=%d wbuf=%d lz4=%v msgs=%d procs=%d fragmented=%v lz4-one-sided=%d", c.Conns, c.Channels, c.Window, c.Queue, c.RBuf, c.WBuf, c.Compress, c.Msgs, c.MaxProcs, c.Fragment, c.Asym)
 }
 
 // closing manners of the closer side
@@ -443,12 +445,29 @@ func (d *delivery) runTraffic(seed uint64, idx int, cfg TrafficCfg, logger *netx
 		defer runtime.GOMAXPROCS(runtime.GOMAXPROCS(cfg.MaxProcs))
 	}
 	opts := Opts(cfg.Window, cfg.Queue, cfg.RBuf, cfg.WBuf, cfg.Compress)
-	srv, addr, err := StartServer(d.handler(), logger, opts)
+	sopts := opts
+	switch cfg.Asym {
+	case 1:
+		opts.Compression, sopts.Compression = true, false
+	case 2:
+		opts.Compression, sopts.Compression = false, true
+	}
+	srv, addr, err := StartServer(d.handler(), logger, sopts)
 	if err != nil {
 		d.res.Inconcl("%v", err)
 		return true
 	}
 	defer StopServer(srv)
+	if cfg.Fragment {
+		px, err := netx.NewProxy(addr)
+		if err != nil {
+			d.res.Inconcl("proxy: %v", err)
+			return true
+		}
+		px.Fragment.Store(1500)
+		defer func() { d.res.Count("pieces_forwarded_by_fragmenting_proxies", px.Pieces.Load()); px.Close() }()
+		addr = px.Addr()
+	}
 	var conns []mpx.Conn
 	for i := 0; i < cfg.Conns; i++ {
 		c, st := mpx.Connect(noCtx, addr, logger, opts)
@@ -479,6 +498,34 @@ func (d *delivery) runTraffic(seed uint64, idx int, cfg TrafficCfg, logger *netx
 		}
 	}
 	ok := WaitTimeout(&wg, Watchdog)
+	if !ok && !d.faulty {
+		// bounded progress: the configuration is not finished after the watchdog. Slow is not wrong:
+		// it is a violation only if not a single message moves during a further half watchdog.
+		moved := func() int64 {
+			var t int64
+			for _, p := range plans {
+				t += int64(p.upSent.Load()) + int64(p.upRecv.Load()) + int64(p.downSent.Load()) + int64(p.downRecv.Load())
+			}
+			return t
+		}
+		m0 := moved()
+		finished := WaitTimeout(&wg, Watchdog/2)
+		if !finished && moved() == m0 {
+			var stuck []string
+			for _, p := range plans {
+				select {
+				case <-p.done:
+				default:
+					if len(stuck) < 6 {
+						stuck = append(stuck, fmt.Sprintf("channel %d: up sent %d of %d, received %d; down sent %d of %d, received %d", p.id, p.upSent.Load(), len(p.up), p.upRecv.Load(), p.downSent.Load(), len(p.down), p.downRecv.Load()))
+					}
+				}
+			}
+			d.res.Violate(d.prefix+"delivery-stalled", fmt.Sprintf("configuration %s: no fault was injected, the traffic did not finish within %v and then not a single message was sent or received for another %v", cfg, Watchdog, Watchdog/2),
+				map[string]any{"config": cfg.String(), "index": idx, "unfinished_channels": stuck, "goroutines": Goroutines(8)})
+		}
+		ok = finished
+	}
 	if !ok {
 		d.aborted.Store(true)
 		for _, p := range plans {
@@ -566,11 +613,22 @@ func C03(c *runner.Cfg) *report.Result {
 			cfg.Msgs = 60
 		}
 		cfg.SizeCap = 256 << 10
+		if idx%8 == 1 || idx%8 == 6 {
+			cfg.Asym = 1 + (idx/8)%2 // the two sides disagree about compression: the handshake settles it
+		}
+		if idx%4 == 3 {
+			// TCP is a byte stream: the same traffic through a proxy that re-segments it
+			cfg.Fragment = true
+			cfg.SizeCap = 6 << 10
+		}
 		if cfg.Window >= 65536 {
 			cfg.SizeCap = 96 << 10
 			if cfg.Msgs > 12 {
 				cfg.Msgs = 12
 			}
+		}
+		if cfg.Fragment {
+			cfg.SizeCap = 6 << 10
 		}
 		if c.Variant == "race" {
 			cfg.Channels = min(cfg.Channels, 8)
